@@ -301,6 +301,39 @@ func (m c18mon) unary(i int) {
 	if rg == nil || !sameAs(rg, sm) {
 		m.fail(data, "Range = %v (nil=%v)", rg, rg == nil)
 	}
+	{
+		// sequences that can be traversed only once: a generator with its own
+		// position, and one fed from a channel
+		src := append(append([]int(nil), want...), want...)
+		pos := 0
+		once := func(yield func(int) bool) {
+			for pos < len(src) {
+				v := src[pos]
+				pos++
+				if !yield(v) {
+					return
+				}
+			}
+		}
+		if rg := mapset.Range(once); rg == nil || !sameAs(rg, sm) {
+			m.fail(data, "Range over a single-use sequence of %v = %v (nil=%v)", src, rg, rg == nil)
+		}
+		ch := make(chan int, len(src))
+		for _, v := range src {
+			ch <- v
+		}
+		close(ch)
+		fromChan := func(yield func(int) bool) {
+			for v := range ch {
+				if !yield(v) {
+					return
+				}
+			}
+		}
+		if rg := mapset.Range(fromChan); rg == nil || !sameAs(rg, sm) {
+			m.fail(data, "Range over a sequence fed from a channel with %v = %v (nil=%v)", src, rg, rg == nil)
+		}
+	}
 	if i <= 1 {
 		// maps that are "set shaped" (value type struct{}), nil and empty
 		for _, in := range []map[int]struct{}{nil, {}, mapset.Set[int](nil), mapset.New[int]()} {
@@ -768,6 +801,15 @@ func c18large(c *fw.Ctx, r *rand.Rand) {
 		if len(in) != shared || len(in3) != shared || !in.IsSubset(a) || !in.IsSubset(b) || !in3.Equals(in) {
 			fail("Intersect has %d / %d elements, want %d", len(in), len(in3), shared)
 			return
+		}
+		if sl := a.Slice(); len(sl) > 0 {
+			for i := range sl {
+				sl[i] = -12345 // the caller owns the slice
+			}
+			if !same(a, rs) {
+				fail("overwriting the slice returned by Slice changed the set")
+				return
+			}
 		}
 		cl := a.Clone()
 		if !same(cl, rs) || len(a.Slice()) != len(rs) || len(a.Append(make([]int, 2, 5))) != len(rs)+2 {
